@@ -168,8 +168,22 @@ def build_ev(s, np_scalars=False, battery=None):
     if np_scalars:
         # values that come out of numpy / pandas pipelines (generate_events, DataFrames): numpy scalars instead of Python numbers
         a, d, e = sut.np.int64(a), sut.np.int64(d), sut.np.float64(e)
-    return sut.EV(a, d, e, s["station"], s["session_id"], battery if battery is not None else build_battery(s["battery"]),
-                  **_kw(estimated_departure=(s.get("est_departure"), None)))
+    cls = ContentAtEV if s.get("content_at") is not None else sut.EV
+    ev = cls(a, d, e, s["station"], s["session_id"], battery if battery is not None else build_battery(s["battery"]),
+             **_kw(estimated_departure=(s.get("est_departure"), None)))
+    if s.get("content_at") is not None:
+        ev.content_at = float(s["content_at"])
+    return ev
+
+
+class ContentAtEV(sut.EV):
+    """User extension: a driver who is content with a fraction of the requested energy. `fully_charged` (the public property that
+    says whether the EV's demand has been met) is overridden accordingly; nothing else changes."""
+    content_at = 1.0
+
+    @property
+    def fully_charged(self):
+        return self.energy_delivered >= self.content_at * self.requested_energy - 1e-3
 
 
 class TaggedPluginEvent(sut.PluginEvent):
